@@ -11,163 +11,150 @@ enum { G_HE = 1, G_HE_CELL = 2, G_HF_HES = 4, G_HF_VS = 8, G_HF_EXT = 16, G_HF_C
 static inline int c10_below(int n) { unsigned x = v_nondet_u32(); v_assume(x < (unsigned)n); return (int)x; }
 
 // ---- brute force on the snapshot -------------------------------------------------------------------------------
-// k-th vertex of halfface g (= start vertex of its k-th halfedge)
-static inline int c10_hf_vertex(const Snap &s, int g, int k) { return snap_he_from(s, snap_hf_he(s, g, k)); }
-static inline bool c10_live_he(const Snap &s, int h) { return h >= 0 && h < 2 * s.nE && !s.edel[h >> 1]; }
-static inline bool c10_live_hf(const Snap &s, int g) { return g >= 0 && g < 2 * s.nF && !s.fdel[g >> 1]; }
-// some live halfedge a -> b exists
-static inline bool c10_exists_he(const Snap &s, int a, int b) {
-  bool r = false;
-  for (int h = 0; h < 2 * s.nE; ++h) if (!s.edel[h >> 1] && snap_he_from(s, h) == a && snap_he_to(s, h) == b) r = true;
-  return r;
-}
-// some halfedge a -> b whose edge belongs to a face of cell c
-static inline bool c10_exists_he_in_cell(const Snap &s, int a, int b, int c) {
-  bool r = false;
-  for (int h = 0; h < 2 * s.nE; ++h) if (snap_he_from(s, h) == a && snap_he_to(s, h) == b && snap_cell_has_edge(s, c, h >> 1)) r = true;
-  return r;
+// Every candidate entity is enumerated by a concrete loop, so the tables below are indexed concretely; only the
+// compared ARGUMENT values are symbolic.
+static int c10_hfn[2 * MAXF];            // valence of halfface g
+static int c10_hfv[2 * MAXF][MAXFV];     // k-th vertex of halfface g (start vertex of its k-th halfedge, in g's orientation)
+static void c10_tables(const Snap &s) {
+  for (int g = 0; g < 2 * s.nF; ++g) {
+    c10_hfn[g] = s.fval[g >> 1];
+    for (int k = 0; k < s.fval[g >> 1]; ++k) c10_hfv[g][k] = snap_he_from(s, snap_hf_he(s, g, k));
+  }
 }
 // halfface g lists halfedge he
-static inline bool c10_hf_has_he(const Snap &s, int g, int he) { return snap_count_he_in_hf(s, g, he) > 0; }
-// a, b, c are three consecutive vertices of halfface g (in its orientation)
-static inline bool c10_hf_consec(const Snap &s, int g, int a, int b, int c) {
-  const int n = s.fval[g >> 1];
+static inline bool c10_hf_has_he(const Snap &s, int g, int he) {
   bool r = false;
-  for (int k = 0; k < MAXFV; ++k) if (k < n) {
-    int k1 = (k + 1 >= n) ? k + 1 - n : k + 1, k2 = (k + 2 >= n) ? k + 2 - n : k + 2;
-    if (n >= 3 && c10_hf_vertex(s, g, k) == a && c10_hf_vertex(s, g, k1) == b && c10_hf_vertex(s, g, k2) == c) r = true;
-  }
+  for (int k = 0; k < c10_hfn[g]; ++k) if (snap_hf_he(s, g, k) == he) r = true;
   return r;
 }
-// the vertex cycle of halfface g, started at its (some) occurrence of vs[0], is exactly vs[0..n)
-static inline bool c10_hf_equals(const Snap &s, int g, const int *vs, int n) {
-  if (s.fval[g >> 1] != n) return false;
+// a, b, c are three consecutive vertices of halfface g (in its orientation)
+static inline bool c10_hf_consec(int g, int a, int b, int c) {
+  const int n = c10_hfn[g];
   bool r = false;
-  for (int o = 0; o < MAXFV; ++o) if (o < n) {
+  if (n >= 3) for (int k = 0; k < n; ++k) if (c10_hfv[g][k] == a && c10_hfv[g][(k + 1) % n] == b && c10_hfv[g][(k + 2) % n] == c) r = true;
+  return r;
+}
+// the vertex cycle of halfface g, read from some occurrence of vs[0], is exactly vs[0..n)
+static inline bool c10_hf_equals(int g, const int *vs, int n) {
+  if (c10_hfn[g] != n) return false;
+  bool r = false;
+  for (int o = 0; o < n; ++o) {
     bool all = true;
-    for (int i = 0; i < MAXFV; ++i) if (i < n) { int k = i + o; if (k >= n) k -= n; if (c10_hf_vertex(s, g, k) != vs[i]) all = false; }
+    for (int i = 0; i < n; ++i) if (c10_hfv[g][(i + o) % n] != vs[i]) all = false;
     if (all) r = true;
   }
   return r;
 }
-static inline bool c10_hf_has_vertex(const Snap &s, int g, int v) {
+static inline bool c10_hf_has_vertex(int g, int v) {
   bool r = false;
-  for (int k = 0; k < MAXFV; ++k) if (k < s.fval[g >> 1] && c10_hf_vertex(s, g, k) == v) r = true;
+  for (int k = 0; k < c10_hfn[g]; ++k) if (c10_hfv[g][k] == v) r = true;
   return r;
 }
 
 static inline std::vector<VH> c10_vs(const int *vs, int n) { std::vector<VH> v; v.reserve((size_t)n); for (int i = 0; i < n; ++i) v.push_back(VH(vs[i])); return v; }
 
-// result of get_halfface_vertices: the vertex cycle of g; `start` = required first vertex (-1: any rotation)
-static inline void c10_check_hfv(const Snap &s, const std::vector<VH> &r, int g, int start, const char *msg_size, const char *msg_cycle, const char *msg_start) {
-  const int n = s.fval[g >> 1];
-  v_assert((int)r.size() == n, msg_size);
-  if ((int)r.size() != n) return;
-  int rv[MAXFV];
-  for (int i = 0; i < MAXFV; ++i) rv[i] = (i < n) ? r[(size_t)i].idx() : -1;
-  v_assert(c10_hf_equals(s, g, rv, n), msg_cycle);
-  if (start >= 0) v_assert(rv[0] == start, msg_start);
-}
+// result r of get_halfface_vertices for (concrete) halfface g: one vertex per halfedge, the vertex cycle of g in g's orientation
+// (any rotation of the stored order), and -- if a start vertex was requested (start >= 0, a vertex of g) -- starting there.
+#define C10_HFV(r, g, start, NAME) do { const int n_ = s.fval[(g) >> 1]; \
+    v_assert((int)(r).size() == n_, "C10 " NAME ": one vertex per halfedge of the halfface"); \
+    if ((int)(r).size() == n_) { int rv_[MAXFV]; for (int i_ = 0; i_ < MAXFV; ++i_) rv_[i_] = (i_ < n_) ? (r)[(size_t)i_].idx() : -1; \
+      v_assert(c10_hf_equals((g), rv_, n_), "C10 " NAME ": the vertices of the halfface in its cyclic order and orientation"); \
+      if ((start) >= 0) v_assert(rv_[0] == (start), "C10 " NAME ": the list starts at the requested vertex"); } } while (0)
 
-// ---- the checks -------------------------------------------------------------------------------------------------
+// ---- result checks --------------------------------------------------------------------------------------------------
+// r = returned handle index (possibly symbolic).  CAND enumerates all candidate handles x (concrete loop), PRED(x) is the
+// brute-force predicate "x is live and satisfies the request" -> soundness: r valid => r is one of the satisfying
+// candidates; completeness: r valid <=> some candidate satisfies; else exactly the invalid handle (-1).
+#define C10_RESULT(r, N, x, PRED, NAME) do { bool ex_ = false, sound_ = false; \
+    for (int x = 0; x < (N); ++x) if (PRED) { ex_ = true; if ((r) == x) sound_ = true; } \
+    v_assert((r) < 0 || sound_, "C10 " NAME ": a returned valid handle is a live entity satisfying the request (soundness)"); \
+    v_assert(((r) >= 0) == ex_, "C10 " NAME ": a valid handle is returned iff brute force over the stored definitions finds one (completeness)"); \
+    v_assert((r) >= -1, "C10 " NAME ": otherwise exactly the invalid handle"); } while (0)
+
+// Measured: a lookup whose loop runs over a container selected by a SYMBOLIC handle and copies a per-element vector
+// inside (halfface(hf) by value, Face copies) gives no verdict in 300 s even on one tet.  Therefore the handle that selects
+// the container ("centre": cell, first halfedge, first two vertices, halfface, face) is ENUMERATED over its whole range
+// by a concrete loop, and every other argument stays a free symbolic value (one fresh value per enumerated centre).
 static void check_lookups(const TopologyKernel &m, unsigned groups) {
   Snap s; take_snapshot(m, s);
   if (s.overflow) return;
   const int nHE = 2 * s.nE, nHF = 2 * s.nF;
+  c10_tables(s);
 
-  // find_halfedge(v1, v2): "Get halfedge from vertex _vh1 to _vh2"
+  // find_halfedge(v1, v2): "Get halfedge from vertex _vh1 to _vh2"            [v1, v2 symbolic]
   if ((groups & G_HE) && s.nV > 0) {
     int a = c10_below(s.nV), b = c10_below(s.nV);
     int r = m.find_halfedge(VH(a), VH(b)).idx();
-    if (r >= 0) v_assert(c10_live_he(s, r) && snap_he_from(s, r) == a && snap_he_to(s, r) == b, "C10 find_halfedge: a returned halfedge is live and runs from v1 to v2");
-    v_assert((r >= 0) == c10_exists_he(s, a, b), "C10 find_halfedge: valid iff some live halfedge v1->v2 exists");
-    v_assert(r >= -1, "C10 find_halfedge: otherwise the invalid handle");
+    C10_RESULT(r, nHE, h, !s.edel[h >> 1] && snap_he_from(s, h) == a && snap_he_to(s, h) == b, "find_halfedge(v1,v2) [live halfedge v1->v2]");
   }
-  // find_halfedge_in_cell(v1, v2, c): "... restricted to halfedges of cell _ch" (c live)
-  if ((groups & G_HE_CELL) && s.nV > 0 && s.nC > 0) {
-    int a = c10_below(s.nV), b = c10_below(s.nV), c = c10_below(s.nC);
-    if (!s.cdel[c]) {
+  // find_halfedge_in_cell(v1, v2, c): "... restricted to halfedges of cell _ch"   [c enumerated (live), v1, v2 symbolic]
+  if ((groups & G_HE_CELL) && s.nV > 0) {
+    for (int c = 0; c < s.nC; ++c) if (!s.cdel[c]) {
+      int a = c10_below(s.nV), b = c10_below(s.nV);
       int r = m.find_halfedge_in_cell(VH(a), VH(b), CH(c)).idx();
-      if (r >= 0) v_assert(c10_live_he(s, r) && snap_he_from(s, r) == a && snap_he_to(s, r) == b && snap_cell_has_edge(s, c, r >> 1), "C10 find_halfedge_in_cell: a returned halfedge is live, runs from v1 to v2 and its edge belongs to the cell");
-      v_assert((r >= 0) == c10_exists_he_in_cell(s, a, b, c), "C10 find_halfedge_in_cell: valid iff some halfedge v1->v2 of the cell exists");
-      v_assert(r >= -1, "C10 find_halfedge_in_cell: otherwise the invalid handle");
+      C10_RESULT(r, nHE, h, !s.edel[h >> 1] && snap_he_from(s, h) == a && snap_he_to(s, h) == b && snap_cell_has_edge(s, c, h >> 1), "find_halfedge_in_cell(v1,v2,c) [live halfedge v1->v2 whose edge belongs to a face of c]");
     }
   }
-  // find_halfface(halfedges): "Only the first two half-edges are checked"
+  // find_halfface(halfedges): "Only the first two half-edges are checked"      [he0 enumerated, he1, he2 symbolic]
   if ((groups & G_HF_HES) && nHE > 0) {
-    int h0 = c10_below(nHE), h1 = c10_below(nHE), h2 = c10_below(nHE);
-    bool ex = false;
-    for (int g = 0; g < nHF; ++g) if (!s.fdel[g >> 1] && c10_hf_has_he(s, g, h0) && c10_hf_has_he(s, g, h1)) ex = true;
-    int r = m.find_halfface(vec2(HEH(h0), HEH(h1))).idx();
-    if (r >= 0) v_assert(c10_live_hf(s, r) && c10_hf_has_he(s, r, h0) && c10_hf_has_he(s, r, h1), "C10 find_halfface(halfedges): a returned halfface is live and lists both halfedges");
-    v_assert((r >= 0) == ex, "C10 find_halfface(halfedges): valid iff some live halfface lists both halfedges");
-    v_assert(r >= -1, "C10 find_halfface(halfedges): otherwise the invalid handle");
-    // longer list: only the first two are checked
-    int r3 = m.find_halfface(vec3(HEH(h0), HEH(h1), HEH(h2))).idx();
-    if (r3 >= 0) v_assert(c10_live_hf(s, r3) && c10_hf_has_he(s, r3, h0) && c10_hf_has_he(s, r3, h1), "C10 find_halfface(3 halfedges): a returned halfface is live and lists the first two halfedges");
-    v_assert((r3 >= 0) == ex, "C10 find_halfface(3 halfedges): valid iff some live halfface lists the first two halfedges");
-  }
-  // find_halfface(vertices): "list of incident vertices (in connected order); only the first three vertices are checked"
-  if ((groups & G_HF_VS) && s.nV > 0) {
-    int vs[4]; for (int i = 0; i < 4; ++i) vs[i] = c10_below(s.nV);
-    bool ex = false;
-    for (int g = 0; g < nHF; ++g) if (!s.fdel[g >> 1] && c10_hf_consec(s, g, vs[0], vs[1], vs[2])) ex = true;
-    int r = m.find_halfface(c10_vs(vs, 3)).idx();
-    if (r >= 0) v_assert(c10_live_hf(s, r) && c10_hf_consec(s, r, vs[0], vs[1], vs[2]), "C10 find_halfface(vertices): a returned halfface is live and has v0,v1,v2 as consecutive vertices");
-    v_assert((r >= 0) == ex, "C10 find_halfface(vertices): valid iff some live halfface has v0,v1,v2 as consecutive vertices");
-    v_assert(r >= -1, "C10 find_halfface(vertices): otherwise the invalid handle");
-    int r4 = m.find_halfface(c10_vs(vs, 4)).idx();
-    if (r4 >= 0) v_assert(c10_live_hf(s, r4) && c10_hf_consec(s, r4, vs[0], vs[1], vs[2]), "C10 find_halfface(4 vertices): a returned halfface is live and has v0,v1,v2 as consecutive vertices");
-    v_assert((r4 >= 0) == ex, "C10 find_halfface(4 vertices): valid iff some live halfface has the first three as consecutive vertices");
-  }
-  // find_halfface_extensive(vertices): "All vertices are checked"
-  if ((groups & G_HF_EXT) && s.nV > 0) {
-    int vs[5]; for (int i = 0; i < 5; ++i) vs[i] = c10_below(s.nV);
-    for (int n = 3; n <= 5; ++n) {
-      bool ex = false;
-      for (int g = 0; g < nHF; ++g) if (!s.fdel[g >> 1] && c10_hf_equals(s, g, vs, n)) ex = true;
-      int r = m.find_halfface_extensive(c10_vs(vs, n)).idx();
-      if (r >= 0) v_assert(c10_live_hf(s, r) && c10_hf_equals(s, r, vs, n), "C10 find_halfface_extensive: a returned halfface is live and its vertex cycle from v0 equals the list");
-      v_assert((r >= 0) == ex, "C10 find_halfface_extensive: valid iff some live halfface has exactly this vertex cycle");
-      v_assert(r >= -1, "C10 find_halfface_extensive: otherwise the invalid handle");
+    for (int h0 = 0; h0 < nHE; ++h0) {
+      int h1 = c10_below(nHE), h2 = c10_below(nHE);
+      int r = m.find_halfface(vec2(HEH(h0), HEH(h1))).idx();
+      C10_RESULT(r, nHF, g, !s.fdel[g >> 1] && c10_hf_has_he(s, g, h0) && c10_hf_has_he(s, g, h1), "find_halfface({he0,he1}) [live halfface listing he0 and he1]");
+      int r3 = m.find_halfface(vec3(HEH(h0), HEH(h1), HEH(h2))).idx();   // only the first two are checked
+      C10_RESULT(r3, nHF, g, !s.fdel[g >> 1] && c10_hf_has_he(s, g, h0) && c10_hf_has_he(s, g, h1), "find_halfface({he0,he1,he2}) [live halfface listing he0 and he1; he2 not checked]");
     }
   }
-  // find_halfface_in_cell(vertices, c): first three vertices, restricted to the halffaces of the (live, closed) cell
-  if ((groups & G_HF_CELL) && s.nV > 0 && s.nC > 0) {
-    int vs[4]; for (int i = 0; i < 4; ++i) vs[i] = c10_below(s.nV);
-    int c = c10_below(s.nC);
-    if (!s.cdel[c]) {
-      bool ex = false;
-      for (int k = 0; k < MAXCV; ++k) if (k < s.cval[c] && c10_hf_consec(s, s.chf[c][k], vs[0], vs[1], vs[2])) ex = true;
+  // find_halfface(vertices): "(in connected order); only the first three vertices are checked"   [v0, v1 enumerated, v2, v3 symbolic]
+  // find_halfface_extensive(vertices): "All vertices are checked"                                 [v0, v1 enumerated, v2..v4 symbolic]
+  if ((groups & (G_HF_VS | G_HF_EXT)) && s.nV > 0) {
+    for (int v0 = 0; v0 < s.nV; ++v0) for (int v1 = 0; v1 < s.nV; ++v1) {
+      int vs[5]; vs[0] = v0; vs[1] = v1; for (int i = 2; i < 5; ++i) vs[i] = c10_below(s.nV);
+      if (groups & G_HF_VS) {
+        int r = m.find_halfface(c10_vs(vs, 3)).idx();
+        C10_RESULT(r, nHF, g, !s.fdel[g >> 1] && c10_hf_consec(g, vs[0], vs[1], vs[2]), "find_halfface({v0,v1,v2}) [live halfface with v0,v1,v2 as consecutive vertices]");
+        int r4 = m.find_halfface(c10_vs(vs, 4)).idx();
+        C10_RESULT(r4, nHF, g, !s.fdel[g >> 1] && c10_hf_consec(g, vs[0], vs[1], vs[2]), "find_halfface({v0,v1,v2,v3}) [live halfface with v0,v1,v2 as consecutive vertices; v3 not checked]");
+      }
+      if (groups & G_HF_EXT) {
+        int r3 = m.find_halfface_extensive(c10_vs(vs, 3)).idx();
+        C10_RESULT(r3, nHF, g, !s.fdel[g >> 1] && c10_hf_equals(g, vs, 3), "find_halfface_extensive(3 vertices) [live halfface whose vertex cycle from v0 is exactly the list]");
+        int r4 = m.find_halfface_extensive(c10_vs(vs, 4)).idx();
+        C10_RESULT(r4, nHF, g, !s.fdel[g >> 1] && c10_hf_equals(g, vs, 4), "find_halfface_extensive(4 vertices) [live halfface whose vertex cycle from v0 is exactly the list]");
+        int r5 = m.find_halfface_extensive(c10_vs(vs, 5)).idx();
+        C10_RESULT(r5, nHF, g, !s.fdel[g >> 1] && c10_hf_equals(g, vs, 5), "find_halfface_extensive(5 vertices) [live halfface whose vertex cycle from v0 is exactly the list]");
+      }
+    }
+  }
+  // find_halfface_in_cell(vertices, c): first three vertices, restricted to the halffaces of the (live, closed) cell   [c enumerated, v0..v3 symbolic]
+  if ((groups & G_HF_CELL) && s.nV > 0) {
+    for (int c = 0; c < s.nC; ++c) if (!s.cdel[c]) {
+      int vs[4]; for (int i = 0; i < 4; ++i) vs[i] = c10_below(s.nV);
       int r = m.find_halfface_in_cell(c10_vs(vs, 3), CH(c)).idx();
-      if (r >= 0) v_assert(c10_live_hf(s, r) && snap_cell_has_hf(s, c, r) && c10_hf_consec(s, r, vs[0], vs[1], vs[2]), "C10 find_halfface_in_cell: a returned halfface is live, belongs to the cell and has v0,v1,v2 as consecutive vertices");
-      v_assert((r >= 0) == ex, "C10 find_halfface_in_cell: valid iff some halfface of the cell has v0,v1,v2 as consecutive vertices");
-      v_assert(r >= -1, "C10 find_halfface_in_cell: otherwise the invalid handle");
+      C10_RESULT(r, nHF, g, !s.fdel[g >> 1] && snap_cell_has_hf(s, c, g) && c10_hf_consec(g, vs[0], vs[1], vs[2]), "find_halfface_in_cell({v0,v1,v2},c) [halfface of c with v0,v1,v2 as consecutive vertices]");
       int r4 = m.find_halfface_in_cell(c10_vs(vs, 4), CH(c)).idx();
-      if (r4 >= 0) v_assert(c10_live_hf(s, r4) && snap_cell_has_hf(s, c, r4) && c10_hf_consec(s, r4, vs[0], vs[1], vs[2]), "C10 find_halfface_in_cell(4 vertices): a returned halfface is live, belongs to the cell and has v0,v1,v2 as consecutive vertices");
-      v_assert((r4 >= 0) == ex, "C10 find_halfface_in_cell(4 vertices): valid iff some halfface of the cell has the first three as consecutive vertices");
+      C10_RESULT(r4, nHF, g, !s.fdel[g >> 1] && snap_cell_has_hf(s, c, g) && c10_hf_consec(g, vs[0], vs[1], vs[2]), "find_halfface_in_cell({v0,v1,v2,v3},c) [halfface of c with v0,v1,v2 as consecutive vertices; v3 not checked]");
     }
   }
-  // get_halfface_vertices x3 (hfh live)
+  // get_halfface_vertices x3   [halfface enumerated (live), start vertex / start halfedge symbolic]
   if ((groups & G_HFV) && nHF > 0) {
-    int g = c10_below(nHF);
-    if (!s.fdel[g >> 1]) {
-      c10_check_hfv(s, m.get_halfface_vertices(HFH(g)), g, -1, "C10 get_halfface_vertices(hf): one vertex per halfedge", "C10 get_halfface_vertices(hf): the vertex cycle of the halfface in its orientation", "");
+    for (int g = 0; g < nHF; ++g) if (!s.fdel[g >> 1]) {
+      { std::vector<VH> r = m.get_halfface_vertices(HFH(g)); C10_HFV(r, g, -1, "get_halfface_vertices(hf)"); }
       int v = c10_below(s.nV);
-      if (c10_hf_has_vertex(s, g, v))
-        c10_check_hfv(s, m.get_halfface_vertices(HFH(g), VH(v)), g, v, "C10 get_halfface_vertices(hf,v): one vertex per halfedge", "C10 get_halfface_vertices(hf,v): the vertex cycle of the halfface in its orientation", "C10 get_halfface_vertices(hf,v): starts at v");
+      if (c10_hf_has_vertex(g, v)) { std::vector<VH> r = m.get_halfface_vertices(HFH(g), VH(v)); C10_HFV(r, g, v, "get_halfface_vertices(hf,v)"); }
       int h = c10_below(nHE);
       int hv = snap_he_from(s, h);
-      if (c10_hf_has_vertex(s, g, hv))
-        c10_check_hfv(s, m.get_halfface_vertices(HFH(g), HEH(h)), g, hv, "C10 get_halfface_vertices(hf,he): one vertex per halfedge", "C10 get_halfface_vertices(hf,he): the vertex cycle of the halfface in its orientation", "C10 get_halfface_vertices(hf,he): starts at from_vertex(he)");
+      if (c10_hf_has_vertex(g, hv)) { std::vector<VH> r = m.get_halfface_vertices(HFH(g), HEH(h)); C10_HFV(r, g, hv, "get_halfface_vertices(hf,he)"); }
     }
   }
-  // is_incident(face, edge)
-  if ((groups & G_INC) && s.nF > 0 && s.nE > 0) {
-    int f = c10_below(s.nF), e = c10_below(s.nE);
-    v_assert(m.is_incident(FH(f), EH(e)) == snap_face_has_edge(s, f, e), "C10 is_incident(f,e) iff the face lists a halfedge of the edge");
+  // is_incident(face, edge)   [face enumerated (Face copied by value inside), edge symbolic]
+  if ((groups & G_INC) && s.nE > 0) {
+    for (int f = 0; f < s.nF; ++f) {
+      int e = c10_below(s.nE);
+      v_assert(m.is_incident(FH(f), EH(e)) == snap_face_has_edge(s, f, e), "C10 is_incident(f,e) iff the face lists a halfedge of the edge");
+    }
   }
-  // n_vertices_in_cell(c): cell enumerated (std::set inside), live
+  // n_vertices_in_cell(c)   [cell enumerated (std::set inside), live]
   if ((groups & G_NVC)) {
     for (int c = 0; c < s.nC; ++c) if (!s.cdel[c]) {
       int cnt = 0;
